@@ -685,52 +685,61 @@ func errorSinks(v ssa.Value, setErr *ssa.Function) bool {
 func ruleResidue(c *Ctx, rule string) {
 	pull := c.fn("morass", "(*Morass).Pull")
 	n := 0
-	for _, b := range pull.Blocks {
-		for _, ins := range b.Instrs {
-			u, ok := ins.(*ssa.UnOp)
-			if !ok || !isGlobalLoad(u, "io", "EOF") {
-				continue
-			}
-			// an assignment of io.EOF (not a comparison with it)
-			assigned := false
-			for _, r := range *u.Referrers() {
-				switch r.(type) {
-				case *ssa.Phi, *ssa.Return, *ssa.Store:
-					assigned = true
+	// Pull itself and the private helpers it hands its end-of-data handling to
+	var where []*ssa.Function
+	for _, f := range pkgReach(pull) {
+		if f == pull || (f.Object() != nil && !f.Object().Exported()) {
+			where = append(where, f)
+		}
+	}
+	for _, wf := range where {
+		for _, b := range wf.Blocks {
+			for _, ins := range b.Instrs {
+				u, ok := ins.(*ssa.UnOp)
+				if !ok || !isGlobalLoad(u, "io", "EOF") {
+					continue
 				}
-			}
-			if !assigned {
-				continue
-			}
-			n++
-			for _, flag := range []string{"AutoClear", "AutoClean"} {
-				key := fmt.Sprintf("morass.(*Morass).Pull/EOF#%d/%s", n, flag)
-				found := false
-				for d := b; d != nil; d = d.Idom() {
-					ifi, ok := d.Instrs[len(d.Instrs)-1].(*ssa.If)
-					if !ok {
-						continue
+				// an assignment of io.EOF (not a comparison with it)
+				assigned := false
+				for _, r := range *u.Referrers() {
+					switch r.(type) {
+					case *ssa.Phi, *ssa.Return, *ssa.Store:
+						assigned = true
 					}
-					if ld, ok := ifi.Cond.(*ssa.UnOp); ok && ld.Op == token.MUL {
-						if name, ok := fieldOf(ld.X, morassPkg, "Morass"); ok && name == flag && d != b {
-							found = true
+				}
+				if !assigned {
+					continue
+				}
+				n++
+				for _, flag := range []string{"AutoClear", "AutoClean"} {
+					key := fmt.Sprintf("morass.(*Morass).Pull/EOF#%d/%s", n, flag)
+					found := false
+					for d := b; d != nil; d = d.Idom() {
+						ifi, ok := d.Instrs[len(d.Instrs)-1].(*ssa.If)
+						if !ok {
+							continue
+						}
+						if ld, ok := ifi.Cond.(*ssa.UnOp); ok && ld.Op == token.MUL {
+							if name, ok := fieldOf(ld.X, morassPkg, "Morass"); ok && name == flag && d != b {
+								found = true
+							}
 						}
 					}
-				}
-				if found {
-					c.ok(rule, key, u.Pos(), "this end-of-data branch tests "+flag)
-				} else {
-					what := "run files stay in the temporary directory"
-					if flag == "AutoClean" {
-						what = "the temporary directory is left behind after the sorter was drained"
+					if found {
+						c.ok(rule, key, u.Pos(), "this end-of-data branch tests "+flag)
+					} else {
+						what := "run files stay in the temporary directory"
+						if flag == "AutoClean" {
+							what = "the temporary directory is left behind after the sorter was drained"
+						}
+						c.bad(rule, key, u.Pos(), "this end-of-data branch of Pull returns io.EOF without testing "+flag+": "+what)
 					}
-					c.bad(rule, key, u.Pos(), "this end-of-data branch of Pull returns io.EOF without testing "+flag+": "+what)
 				}
 			}
 		}
 	}
-	if n < 2 {
-		c.und(rule, "morass.(*Morass).Pull/EOF", pull.Pos(), fmt.Sprintf("found %d end-of-data branches in Pull, expected 2", n))
+	if n < 1 {
+		c.und(rule, "morass.(*Morass).Pull/EOF", pull.Pos(), "no end-of-data branch (a place that hands out io.EOF) found in Pull or its helpers")
 	}
 	// CleanUp removes m.dir
 	cu := c.fn("morass", "(*Morass).CleanUp")
